@@ -669,4 +669,12 @@ theorem minv_run {s : State} (h : MInv s) (sched : List (Nat × Act)) : MInv (ru
   | nil => exact h
   | cons x xs ih => exact ih (minv_step h x.1 x.2)
 
+/-- every state reachable by any number of threads under any schedule (a schedule step names a thread and what it
+does next: begin an `alloc`, continue its operation by one hooked operation, or `dealloc` a live frame) -/
+def Reachable (s : State) : Prop := ∃ sched, s = run init sched
+
+theorem reachable_minv {s : State} (h : Reachable s) : MInv s := by
+  obtain ⟨sched, rfl⟩ := h
+  exact minv_run minv_init sched
+
 end Cocls.Storage.Mt
